@@ -237,7 +237,16 @@ impl Stream for C05 {
                 let a = self.judge_answer(args);
                 match a.as_node() {
                     Some(("accepted", _)) => node("accepted", vec![]),
-                    Some(("rejected", _)) => node("rejected", vec![]),
+                    Some(("rejected", r)) => {
+                        // a rejection that comes ONLY from a syntax node the translator does not know (the parser chose a
+                        // reading outside the documented subset, finding F101) is told apart: the model has no parser
+                        let msgs: Vec<&str> = r.first().and_then(|e| e.as_node()).map(|(_, es)| es.iter().filter_map(|e| e.as_str()).collect()).unwrap_or_default();
+                        if !msgs.is_empty() && msgs.iter().all(|m| m.starts_with("unexpected node kind: ")) {
+                            node("rejected", vec![node("parser", vec![st(msgs[0].to_owned())])])
+                        } else {
+                            node("rejected", vec![])
+                        }
+                    }
                     _ => a,
                 }
             }
